@@ -470,6 +470,14 @@ example :
     fwdSum (cfgD4 false) 1 1 (.coin 1) (after (cfgD4 false) fundsD4 opsLife).orders = 1200 := by
   decide +kernel
 
+/-- non-vacuity of `ended_order_accounts` / `finish_moves_exactly`: before the last op of `opsLife` the seller's order (key (1, 1, 1)) is
+live and partially filled, and `FinishOrder` on it succeeds -/
+example :
+    let s := after (cfgD4 false) fundsD4 opsLife.dropLast
+    (s.order? (1, 1, 1)).map (fun o => (o.status, o.offer, o.remaining)) = some (.partially, 1000000, 600000) ∧
+    (finishOrder (cfgD4 false) s (1, 1, 1) .canceled).isSome = true := by
+  decide +kernel
+
 /-- the partially filled seller of `opsLife` lives through the migration and cancels afterwards: refunded 600 000 + (3000 − 1200),
 forwarded 1200 — exactly as without the migration (the seeded change s87, which copies the OFFER coin into the remaining offer
 coin, makes the real chain refund 1 003 000 here) -/
